@@ -200,7 +200,9 @@ func (fu *folderUpload) FormattedPath() string {
 		pathData = pathData[3+segLen:]
 	}
 
-	return filepath.Join(pathSegments...)
+	// Join below a leading "/" so that ".." segments are cleaned away and the result, once the
+	// leading separator is removed, is a relative path that cannot leave the upload folder.
+	return strings.TrimPrefix(filepath.Join("/", filepath.Join(pathSegments...)), "/")
 }
 
 type FileHeader struct {
